@@ -19,13 +19,16 @@ Proof.
   - reflexivity.
   - destruct (ending s); reflexivity.
   - destruct (gate v c s && allowed); reflexivity.
+  - destruct (if newest then rev (heldq s) else heldq s); reflexivity.
   - apply pc_upd_cur.
 Qed.
 
-Lemma pc_flush s : pc (flush s) = pc s.
-Proof.
-  unfold flush. destruct (cur s); [destruct (players s ++ repeat (0%nat, 0%nat) (pending s))|]; reflexivity.
-Qed.
+Ltac flush_cases :=
+  unfold flush;
+  repeat match goal with |- context [match ?x with _ => _ end] => destruct x eqn:? end.
+
+Lemma pc_flush v c s : pc (flush v c s) = pc s.
+Proof. flush_cases; reflexivity. Qed.
 
 Lemma pc_batch v c : forall ops s, pc (fst (batch v c s ops)) = pc s.
 Proof.
@@ -75,7 +78,7 @@ Section Monitor.
   Hypothesis H_open : forall s m, Rb s m -> Rm s m.
   Hypothesis H_op : forall s m o, Rm s m ->
     exists m', mrun m (snd (apply_op v c s o)) = Some m' /\ Rm (fst (apply_op v c s o)) m'.
-  Hypothesis H_flush : forall s m, Rm s m -> Rb (flush s) m.
+  Hypothesis H_flush : forall s m, Rm s m -> Rb (flush v c s) m.
   Hypothesis H_adv : forall s m, Rb s m -> enabled v s ->
     exists m', mrun m (snd (advance v c s)) = Some m' /\ Rb (fst (advance v c s)) m'.
   Hypothesis H_idle : forall s m, Rb s m ->
@@ -259,9 +262,9 @@ Proof.
       + exact H.
       + destruct (ending s); exact H.
       + destruct (gate fixed c s && allowed); exact H.
+      + destruct (if newest then rev (heldq s) else heldq s); exact H.
       + rewrite bip_upd_cur. exact H.
-    - intros s m H. unfold Rbip, flush in *.
-      destruct (cur s); [destruct (players s ++ repeat (0%nat, 0%nat) (pending s))|]; exact H.
+    - intros s m H. unfold Rbip in *. flush_cases; exact H.
     - intros s m H _. destruct m. unfold advance.
       assert (G : forall k s', Rbip c s' tt ->
                 exists m', mrun (bstep c) tt (snd (goto k s')) = Some m' /\ Rbip c (fst (goto k s')) m')
@@ -269,11 +272,11 @@ Proof.
       assert (Z0 : forall s', Rbip c (set_bipraw 0 s') tt) by (intro; unfold Rbip; cbn; lia).
       destruct (pc s) as [[]| | |]; try (apply G; exact H).
       + (* GSg *) destruct (0 <? np s)%nat; [apply G; exact H|].
-        destruct (gate fixed c s && own_ok c).
-        * cbn [fix_wait fixed]. destruct (true && ending (add_first_player s) || (0 <? np (add_first_player s))%nat);
-            [apply G; exact H | exists tt; split; [reflexivity|exact H]].
-        * destruct (fix_wait fixed && ending s || (0 <? np s)%nat);
-            [apply G; exact H | exists tt; split; [reflexivity|exact H]].
+        assert (A : Rbip c (add_first_player c (set_pev false s)) tt)
+          by (unfold add_first_player; destruct (hold_adds c); exact H).
+        destruct (gate fixed c (set_pev false s) && own_ok c);
+          match goal with |- context [if ?b then goto GSd ?x else _] => destruct b end;
+          first [apply G; assumption | exists tt; split; [reflexivity|assumption]].
       + (* GSd *) apply loop_head_bip; exact H.
       + (* GEd *) exists tt. cbn. split; [reflexivity | exact H].
       + (* PTSg *) apply G. unfold Rbip in *. cbn. rewrite bip_upd_cur. exact H.
@@ -359,6 +362,7 @@ Proof.
   - unfold Keep; cbn; intuition.
   - destruct (ending s); unfold Keep; cbn; intuition.
   - destruct (gate v c s && allowed); [unfold Keep; cbn; intuition | apply Keep_refl].
+  - destruct (if newest then rev (heldq s) else heldq s); [apply Keep_refl | unfold Keep; cbn; intuition].
   - apply Keep_upd_snd. reflexivity.
 Qed.
 
@@ -433,58 +437,87 @@ Definition Inv (s : st) : Prop :=
   (cur s <= np s)%nat /\
   (in_turn (pc s) = true -> (1 <= cur s)%nat) /\
   (pc s = AtEv GSd -> ending s = true \/ (1 <= np s)%nat) /\
-  active s = negb (is_done (pc s)).
+  active s = negb (is_done (pc s)) /\
+  (pev s = true -> (1 <= np s)%nat).
 
 Definition Rg (s : st) (g : gst) : Prop := g = g_of s /\ Inv s.
 
 Lemma g_of_Keep s s' : Keep s s' -> g_of s' = g_of s.
 Proof. intros (H1 & H2 & H3 & H4 & _). unfold g_of. rewrite H1, H2, H3, H4. reflexivity. Qed.
 
-Lemma Inv_Keep s s' : Keep s s' -> Inv s -> Inv s'.
+Lemma pev_apply_op v c s o : pev (fst (apply_op v c s o)) = pev s.
 Proof.
-  intros (H1 & H2 & H3 & H4 & H5 & H6 & H7 & H8 & _) (I1 & I2 & I3 & I4). unfold Inv.
-  rewrite H1, H2, H5, H6. repeat split; auto.
+  destruct o; cbn [apply_op fst].
+  - destruct (drainh s && negb (n =? 0)); [|reflexivity].
+    destruct (set_bip_form c (bip s - n) s) as [b [e ->]]; reflexivity.
+  - destruct (set_bip_form c (bip s + d) s) as [b [e ->]]; reflexivity.
+  - reflexivity.
+  - reflexivity.
+  - destruct (ending s); reflexivity.
+  - destruct (gate v c s && allowed); reflexivity.
+  - destruct (if newest then rev (heldq s) else heldq s); reflexivity.
+  - unfold upd_cur. destruct (cur s); reflexivity.
+Qed.
+
+Lemma Inv_Keep s s' : Keep s s' -> pev s' = pev s -> Inv s -> Inv s'.
+Proof.
+  intros (H1 & H2 & H3 & H4 & H5 & H6 & H7 & H8 & _) HP (I1 & I2 & I3 & I4 & I5). unfold Inv.
+  rewrite H1, H2, H5, H6, HP. repeat split; auto.
   intro E. destruct (I3 E) as [A|A]; [left; apply H8; exact A | right; exact A].
 Qed.
 
-Lemma pball_flush s : (1 <= cur s)%nat -> pball (flush s) = pball s /\ cur (flush s) = cur s.
-Proof.
-  intro H. unfold flush, pball, pl. destruct (cur s) as [|i] eqn:E; [lia|]. cbn. rewrite E. cbn.
-  split; [|reflexivity]. rewrite Nat.sub_0_r. rewrite nth_app_repeat. reflexivity.
-Qed.
+Lemma players_flush v c s : players (flush v c s) = players s ++ repeat (0%nat, 0%nat) (pending s).
+Proof. flush_cases; simpl; congruence. Qed.
 
-Lemma players_flush s : players (flush s) = players s ++ repeat (0%nat, 0%nat) (pending s).
-Proof.
-  unfold flush. destruct (cur s); [destruct (players s ++ repeat (0%nat, 0%nat) (pending s))|]; reflexivity.
-Qed.
-
-Lemma np_flush s : np (flush s) = (np s + pending s)%nat.
+Lemma np_flush v c s : np (flush v c s) = (np s + pending s)%nat.
 Proof. unfold np. rewrite players_flush, app_length, repeat_length. reflexivity. Qed.
 
-Lemma cur_flush0 s : cur s = 0%nat -> (cur (flush s) <= np (flush s))%nat /\ (cur (flush s) <= 1)%nat.
+Lemma cur_flush_pos v c s : (1 <= cur s)%nat -> cur (flush v c s) = cur s.
+Proof. intro H. flush_cases; simpl; try reflexivity; lia. Qed.
+
+Lemma pball_flush v c s : (1 <= cur s)%nat -> pball (flush v c s) = pball s /\ cur (flush v c s) = cur s.
 Proof.
-  intro H. unfold flush, np. rewrite H.
-  destruct (players s ++ repeat (0%nat, 0%nat) (pending s)) eqn:E; cbn; rewrite ?E; cbn; rewrite ?H; lia.
+  intro H. pose proof (cur_flush_pos v c s H) as C. split; [|exact C].
+  unfold pball, pl. rewrite C, players_flush. destruct (cur s); [reflexivity|].
+  rewrite nth_app_repeat. reflexivity.
 Qed.
 
-Lemma misc_flush s : xb (flush s) = xb s /\ active (flush s) = active s /\ ending (flush s) = ending s /\
-                     tactive (flush s) = tactive s.
+Lemma cur_flush0 c s : cur s = 0%nat ->
+  (cur (flush fixed c s) <= np (flush fixed c s))%nat /\ (cur (flush fixed c s) <= 1)%nat.
 Proof.
-  unfold flush. destruct (cur s); [destruct (players s ++ repeat (0%nat, 0%nat) (pending s))|]; cbn; auto.
+  intro H. pose proof (np_flush fixed c s) as N. unfold np in *. rewrite players_flush in N.
+  revert N. flush_cases; simpl; intro N; try lia;
+    match goal with E : players s ++ _ = _ :: _ |- _ => rewrite E in N; simpl in N end; lia.
 Qed.
 
-Lemma Rg_flush s g : Rg s g -> Rg (flush s) g.
+Lemma misc_flush v c s : xb (flush v c s) = xb s /\ active (flush v c s) = active s /\
+                         ending (flush v c s) = ending s /\ tactive (flush v c s) = tactive s.
+Proof. flush_cases; simpl; auto. Qed.
+
+Lemma pev_flush v c s : pev (flush v c s) = true -> pev s = true \/ (1 <= np (flush v c s))%nat.
 Proof.
-  intros [-> (I1 & I2 & I3 & I4)]. destruct (misc_flush s) as (X1 & X2 & X3 & X4).
-  pose proof (pc_flush s) as P. pose proof (np_flush s) as N.
+  pose proof (np_flush v c s) as N. unfold np in *. rewrite players_flush in N. revert N.
+  flush_cases; simpl; intros N Hp; try (left; exact Hp);
+    right; match goal with E : players s ++ _ = _ :: _ |- _ => rewrite E in N; simpl in N end; lia.
+Qed.
+
+Lemma pending_flush v c s : pending (flush v c s) = 0%nat.
+Proof. flush_cases; reflexivity. Qed.
+
+Lemma Rg_flush c s g : Rg s g -> Rg (flush fixed c s) g.
+Proof.
+  intros [-> (I1 & I2 & I3 & I4 & I5)]. destruct (misc_flush fixed c s) as (X1 & X2 & X3 & X4).
+  pose proof (pc_flush fixed c s) as P. pose proof (np_flush fixed c s) as N.
+  assert (I5' : pev (flush fixed c s) = true -> (1 <= np (flush fixed c s))%nat).
+  { intro Hp. destruct (pev_flush fixed c s Hp) as [A|A]; [specialize (I5 A); lia | exact A]. }
   destruct (Nat.eq_dec (cur s) 0) as [Z|NZ].
-  - destruct (cur_flush0 s Z) as [C1 C2]. split.
+  - destruct (cur_flush0 c s Z) as [C1 C2]. split.
     + unfold g_of. rewrite P, X1. destruct (pc s) as [[]| | |]; try reflexivity;
         (exfalso; cbn in I2; specialize (I2 eq_refl); lia).
     + unfold Inv. rewrite P, X2, X3.
       repeat split; auto; try lia; try (intro T; specialize (I2 T); lia);
         try (intro E; destruct (I3 E); [left; assumption | right; lia]).
-  - destruct (pball_flush s ltac:(lia)) as [B C]. split.
+  - destruct (pball_flush fixed c s ltac:(lia)) as [B C]. split.
     + unfold g_of. rewrite P, X1, B, C. reflexivity.
     + unfold Inv. rewrite P, X2, X3, C.
       repeat split; auto; try lia; try (intro E; destruct (I3 E); [left; assumption | right; lia]).
